@@ -19,7 +19,7 @@ Fixpoint lastw (h : list event) (r c : Z) : Z :=
   end.
 
 Definition geom_okc (h w t b : Z) (a : bool) : Prop :=
-  24 <= h /\ 2 <= w /\ 1 <= t /\ t <= b /\ b < h /\ (a = false -> t = 1 /\ b = h - 1).
+  25 <= h /\ 2 <= w /\ 1 <= t /\ t <= b /\ b < h /\ (a = false -> t = 1 /\ b = h - 1).
 Definition in_screenc (r c h w : Z) : Prop := 1 <= r <= h /\ 1 <= c <= w.
 Definition grid_okc (cs : list (list Z)) (ws : list bool) (hs : list event) (h w : Z) : Prop :=
   shape cs h w /\ length ws = zn h /\
@@ -32,8 +32,8 @@ Definition GG (s : st) := geom_ok s /\ grid_ok s.
 Definition INV (s : st) := GG s /\ in_screen s.
 
 Ltac unf := unfold GG, INV, geom_ok, in_screen, grid_ok in *.
-Ltac setters := unfold set_row, set_col, set_rc, set_ovf, set_bra, set_area, set_wraps, set_buf, set_barvis,
-  set_mode_fields, unset_area in *.
+Ltac setters := unfold unset_area in *; unfold set_row, set_col, set_rc, set_ovf, set_bra, set_area, set_wraps,
+  set_buf, set_barvis, set_mode_fields in *.
 Ltac proj := cbn [row col ovf bra top bot act width height cells wraps barvis modenr csw hist] in *.
 Ltac dif := match goal with |- context [if ?b then _ else _] => let E := fresh "E" in destruct b eqn:E end.
 
@@ -427,15 +427,15 @@ Proof.
               /\ row s1 = row s /\ col s1 = col s /\ barvis s1 = barvis s /\ ovf s1 = ovf s /\ bra s1 = bra s)
     by (unfold s1, b_clear; setters; proj; repeat split; reflexivity).
   destruct K as (K1&K2&K3&K4&K5&K6&K7&K8&K9&K10).
-  destruct (barvis s1).
+  destruct (barvis s1) eqn:EB.
   - destruct (put_bar_GG (zn (width s1 / 8 * 8)) s1 1 default_bar H1) as (I1&I2&I3&I4&I5&I6&I7&I8&I9&I10&I11).
     + lia.
     + assert (0 <= width s1) by (destruct H1 as [(?&?&?) _]; lia).
       assert (width s1 / 8 * 8 <= width s1) by (rewrite Z.mul_comm; apply Z.mul_div_le; lia).
       assert (0 <= width s1 / 8) by (apply Z.div_pos; lia).
       unfold zn. lia.
-    + repeat split; auto; congruence.
-  - repeat split; auto.
+    + split; [exact I1 | repeat split; congruence].
+  - split; [exact H1 | repeat split; congruence].
 Qed.
 
 Lemma init_mode_INV s : GG s -> INV (init_mode s) /\ width (init_mode s) = width s /\ height (init_mode s) = height s
@@ -452,8 +452,10 @@ Proof.
       unf. unfold geom_okc. setters. proj. repeat split; try lia. }
   destruct H2 as (H2 & K1 & K2 & K3 & K4).
   pose proof (set_pos_env s2 (top s2) 1 true) as (P1&P2&P3&P4&P5&P6&P7&P8).
-  split; [apply set_pos_INV; auto; destruct H2 as [(?&?&?) _]; lia|].
-  repeat split; congruence.
+  clearbody s2 s1.
+  split.
+  - apply set_pos_INV; [exact H2|]. destruct H2 as [(_&Hw2&_) _]. clear - Hw2. lia.
+  - repeat split; congruence.
 Qed.
 
 Lemma set_mode_INV s nr w : GG s -> 2 <= w ->
@@ -462,21 +464,28 @@ Proof.
   intros H Hw. unfold set_mode.
   assert (H1 : GG (b_reset (set_mode_fields s nr w false))).
   { destruct H as [(G1&G2&G3&G4&G5&G6) Hgr]. unfold b_reset. setters. proj. split.
-    - unf. unfold geom_okc. proj. repeat split; auto.
+    - unf. unfold geom_okc. proj. repeat split; auto; apply G6; auto.
     - unf. proj. apply grid_new. lia. }
   destruct (init_mode_INV _ H1) as (I1 & I2 & I3 & I4).
-  split; auto. split; [rewrite I2 | rewrite I3]; unfold b_reset; setters; proj; reflexivity.
+  split; auto.
 Qed.
 
 (* ---- statements *)
 Lemma locate_INV s r c cur : INV s -> INV (fst (locate s r c cur)).
 Proof.
-  intros H. unfold locate. repeat (dif; cbn [fst]; auto).
-  all: try (destruct cur as [v|]; [destruct (rng 0 1 v)|]; cbn [fst]).
-  all: apply set_pos_INV;
-    [ destruct H as [H _]; destruct c; revert H; unf; setters; try dif; proj; auto
-    | destruct c; try dif; setters; proj;
-      match goal with E : negb (rng 1 (width s) _) = false |- _ => unfold rng in E; lia end ].
+  intros H. pose proof H as [HG [Hr Hc]]. unfold locate.
+  destruct (negb (oint16 r && oint16 c && oint16 cur)); [exact H|].
+  set (r' := match r with Some z => z | None => row s end).
+  set (c' := match c with Some z => z | None => col s end).
+  destruct ((r' =? height s) && barvis s); [exact H|].
+  destruct (negb (if act s then rng (top s) (bot s) r' else rng 1 (height s) r')); [exact H|].
+  destruct (negb (rng 1 (width s) c')) eqn:E; [exact H|].
+  match goal with |- INV (fst (match cur with Some _ => if _ then (?x, _) else _ | None => _ end)) =>
+    assert (H0 : INV x) end.
+  { apply set_pos_INV.
+    - destruct c; destruct (r' =? height s); exact HG.
+    - unfold rng in E. destruct c; destruct (r' =? height s); setters; proj; lia. }
+  destruct cur as [v|]; [destruct (rng 0 1 v)|]; exact H0.
 Qed.
 
 Lemma view_print_INV s ab : INV s -> INV (fst (view_print s ab)).
@@ -517,8 +526,8 @@ Lemma cls_INV s v : INV s -> INV (fst (cls s v)).
 Proof.
   intros H. pose proof H as [HG _]. unfold cls. repeat (dif; cbn [fst]; auto).
   - assert (H1 : GG (b_clear s 1 (height s) true)) by (apply GG_clear; auto).
-    destruct (redraw_bar_GG _ H1) as (I1&I2&I3). apply set_pos_INV; auto.
-    destruct I1 as [(?&?&?) _]. lia.
+    destruct (redraw_bar_GG _ H1) as (I1&I2&I3). apply set_pos_INV; [exact I1|].
+    destruct I1 as [(_&Hw2&_) _]. clear - Hw2. lia.
   - pose proof (clear_all_INV s HG) as [H1 Hs].
     destruct (redraw_bar_GG _ H1) as (I1&I2&I3&I4&I5&I6&I7&I8&I9).
     split; auto. revert Hs. unf. intros. congruence.
